@@ -985,6 +985,10 @@ func (self *Node) Move(dst, src int) error {
 				break
 			}
 		}
+		// an index beyond the children is a no-op, exactly as it is when nothing has been unset
+		if di > -2 || si > -2 {
+			return nil
+		}
 	}
 
 	s.MoveOne(src, dst)
